@@ -47,9 +47,10 @@ Swaps == /\ Is("Swaps") /\ l' = l + 1 /\ UNCHANGED <<full, len, pos, failed, nob
 FlipsV0 == /\ Is("FlipsV0") /\ l' = l + 1 /\ UNCHANGED <<full, len, pos, failed, nobj>>
            /\ Len(Ev.outcomes) = Len(Ev.collides)
            /\ \A k \in DOMAIN Ev.outcomes : Ev.outcomes[k] = OK => Ev.collides[k] = 1
-\* the (major, minor, patch) fields of a configurable object altered to a newer version: the object is not read
+\* the (major, minor, patch) fields of a configurable object altered to a newer version: the read fails (what the code does) or - the
+\* property does not say that unknown versions are refused - yields the identical object; never something else silently
 VersionFlips == /\ Is("VersionFlips") /\ l' = l + 1 /\ UNCHANGED <<full, len, pos, failed, nobj>>
-                /\ \A k \in DOMAIN Ev.outcomes : Ev.outcomes[k] # OK
+                /\ \A k \in DOMAIN Ev.outcomes : Ev.outcomes[k] = OK => Ev.same[k] = 1
 \* header bytes: detection is not promised, only the absence of a crash (the driver survives to log the record)
 HeaderFlips == /\ Is("HeaderFlips") /\ l' = l + 1 /\ UNCHANGED <<full, len, pos, failed, nobj>> /\ Ev.survived
 Next == Obj \/ Rd \/ Out \/ Outcomes \/ Flips \/ HeaderFlips \/ Swaps \/ FlipsV0 \/ VersionFlips
